@@ -68,7 +68,7 @@ def noncanonical_int(rng, v):
     return rng.choice(["+%d" % v, "0%d" % v, "00%d" % v, "+0%d" % v] + (["-0"] if v == 0 else []))
 
 
-def rgfa(rng, max_ref=2, max_ref_segs=6, max_hap=3, maxlen=6, extra_links=True, ids="s"):
+def rgfa(rng, max_ref=2, max_ref_segs=6, max_hap=3, maxlen=6, extra_links=True, ids="s", min_ref_segs=1):
     """valid rGFA: rank-0 contigs tiled from 0; haplotype contigs with 1-3 segments, touching or separated"""
     g = Graph()
     nid = [0]
@@ -83,7 +83,7 @@ def rgfa(rng, max_ref=2, max_ref_segs=6, max_hap=3, maxlen=6, extra_links=True, 
         name = "chr%d" % (c + 1)
         so = 0
         idl = []
-        for _ in range(rng.randint(1, max_ref_segs)):
+        for _ in range(rng.randint(min_ref_segs, max_ref_segs)):
             L = rng.randint(1, maxlen)
             idl.append(new(rseq(rng, L), name, so, 0))
             so += L
@@ -207,7 +207,24 @@ def walk_record(rng, g, w, name, canonical=None, tags=None, mapq=None):
 
 
 # ------------------------------------------------------------------------------------------------ files
+# file-format quirks that are valid but rare, drawn from their own PRNG stream (set by core.Check) so that they do not
+# perturb the main generator: a .gaf / .gfa file whose last line has no final newline
+QUIRK_RNG = None
+QUIRKS = {}
+
+
 def write_text(path, text):
+    if QUIRK_RNG is not None and path.endswith(".gfa") and text.endswith("\n") and QUIRK_RNG.random() < 0.12:
+        # other GFA record types and comment lines between the S and L lines (header, path, walk, '#')
+        lines = text[:-1].split("\n")
+        for extra in ["H\tVN:Z:1.1", "# a comment line", "P\tp1\tzz1+,zz2-\t*", "W\tsample\t1\tchrQ\t0\t5\t>zz1<zz2"]:
+            if QUIRK_RNG.random() < 0.6:
+                lines.insert(QUIRK_RNG.randint(0, len(lines)), extra)
+        text = "\n".join(lines) + "\n"
+        QUIRKS["gfa-with-other-record-types"] = QUIRKS.get("gfa-with-other-record-types", 0) + 1
+    if QUIRK_RNG is not None and path.endswith((".gaf", ".gfa")) and text.endswith("\n") and QUIRK_RNG.random() < 0.12:
+        text = text[:-1]
+        QUIRKS["file-without-final-newline"] = QUIRKS.get("file-without-final-newline", 0) + 1
     with open(path, "w") as f:
         f.write(text)
 
